@@ -1,6 +1,6 @@
 (* StrProofs.v — C15: the byte-offset code of builtin/string.rs (Model/Str.v) refines a
    specification in which a string is a vector of Unicode scalar values.            *)
-From Coq Require Import Lia.
+From Coq Require Import Lia FMapPositive.
 From MW Require Import Model.Base Model.F64 Model.Num Model.Datum Model.TransformDef
   Model.VmTypes Model.Heap Model.VmBase Model.Str.
 Open Scope N_scope.
@@ -825,4 +825,216 @@ Proof.
   destruct (spec_ref t i) as [c|]; cbn [lift bindM ret].
   - close_ret.
   - close_fail.
+Qed.
+
+(* --------------------------------------------------------- store lemmas *)
+Lemma tget_tset_same {A} (t : tbl A) i a : tget (tset t i a) i = Some a.
+Proof. unfold tget, tset. apply PositiveMap.gss. Qed.
+
+Lemma tget_tset_other {A} (t : tbl A) i j a : i <> j -> tget (tset t i a) j = tget t j.
+Proof.
+  intro H. unfold tget, tset. apply PositiveMap.gso.
+  intro E. apply H. apply N.succ_inj. rewrite <- !N.succ_pos_spec. congruence.
+Qed.
+
+Lemma st_with_store s x : st (with_store s x) = x. Proof. reflexivity. Qed.
+Lemma hp_with_store s x : hp (with_store s x) = hp s. Proof. reflexivity. Qed.
+Lemma sp_with_store s x : sp (with_store s x) = sp s. Proof. reflexivity. Qed.
+
+Lemma str_new_run t s0 :
+  str_new t s0 = ROk (VStr (next_id (st s0))) (with_store s0 (snd (new_str (st s0) t))).
+Proof. reflexivity. Qed.
+Lemma vec_new_run l s0 :
+  vec_new l s0 = ROk (VVec (next_id (st s0))) (with_store s0 (snd (new_vec (st s0) l))).
+Proof. reflexivity. Qed.
+Lemma str_set_run sid t s0 : str_set sid t s0 = ROk tt (with_store s0 (set_str (st s0) sid t)).
+Proof. reflexivity. Qed.
+
+(* a fresh string: its id is new, it holds the text, no other string changes *)
+Lemma new_str_strs x t j :
+  tget (strs (snd (new_str x t))) j = if j =? next_id x then Some t else tget (strs x) j.
+Proof.
+  cbn [new_str snd strs]. destruct (N.eqb_spec j (next_id x)) as [->|H].
+  - apply tget_tset_same.
+  - apply tget_tset_other. congruence.
+Qed.
+(* a mutated string: exactly that string changes *)
+Lemma set_str_strs x i t j :
+  tget (strs (set_str x i t)) j = if j =? i then Some t else tget (strs x) j.
+Proof.
+  cbn [set_str strs]. destruct (N.eqb_spec j i) as [->|H].
+  - apply tget_tset_same.
+  - apply tget_tset_other. congruence.
+Qed.
+
+Ltac norm_state :=
+  rewrite ?st_with_store, ?hp_with_store, ?sp_with_store, ?st_pop1, ?hp_pop1, ?sp_pop1.
+
+Ltac finish_ret :=
+  eexists; split; [reflexivity|]; norm_state; repeat split; try congruence; try lia.
+Ltac finish_fail :=
+  do 3 eexists; split; [reflexivity|]; norm_state; split; congruence.
+
+(* pop the argc pushed by [enter] *)
+Ltac pop_argc_ mn mx :=
+  match goal with
+  | Ht : top_is ?s0 (VArgc ?n :: ?vs) |- _ =>
+      let E := fresh "E" in let T := fresh "T" in
+      destruct (pop_argc_ok s0 n vs mn mx Ht) as [E T];
+      [ lia | first [ intros ? [= <-]; lia | intros ? [=] ] | ];
+      rewrite (bindM_ok _ _ _ _ _ E); clear E Ht
+  end.
+(* pop one argument with the given popper lemma; leaves [opt_res (as_.. v) ..] to analyse *)
+Ltac pop_with lem E :=
+  match goal with
+  | Ht : top_is ?s0 (?v :: ?vs) |- _ =>
+      let T := fresh "T" in
+      destruct (lem s0 v vs Ht ltac:(first [exact I | assumption])) as [E T]; clear Ht
+  end.
+Ltac use_ok E := rewrite (bindM_ok _ _ _ _ _ E); clear E.
+Ltac use_err E := rewrite (bindM_err _ _ _ _ _ _ E); clear E.
+
+(* string-length *)
+Theorem string_length_refines s sid t :
+  stack_ok s -> tget (strs (st s)) sid = Some t ->
+  returns (run_builtin string_length [VStr sid] s) s (VNum (num_of_usize (len t))) (st s).
+Proof.
+  intros Hok Hs. enter Hok s1. unfold string_length.
+  pop_argc_ 1 (Some 1).
+  pop_with pop_string_top E. cbn [as_string opt_res] in E. use_ok E.
+  get_str sid t. unfold ret, char_count. finish_ret.
+Qed.
+
+(* string-set! *)
+Theorem string_set_refines s sid t iv c :
+  stack_ok s -> tget (strs (st s)) sid = Some t -> imm iv ->
+  let r := run_builtin string_set [VStr sid; iv; VChar c] s in
+  match as_index iv with
+  | Some i =>
+      if i <? len t then returns r s VVoid (set_str (st s) sid (spec_set t i c)) else fails r s
+  | None => fails r s
+  end.
+Proof.
+  intros Hok Hs Hi r. subst r. enter Hok s1. unfold string_set.
+  pop_argc_ 3 (Some 3).
+  pop_with pop_char_top E. cbn [as_char opt_res] in E. use_ok E.
+  pop_with pop_index_top E.
+  destruct (as_index iv) as [i|]; cbn [opt_res] in E; [use_ok E | use_err E; finish_fail].
+  pop_with pop_string_top E. cbn [as_string opt_res] in E. use_ok E.
+  get_str sid t. rewrite string_set_core_spec.
+  destruct (i <? len t); cbn [lift bindM].
+  - rewrite (bindM_ok _ _ _ _ _ (str_set_run _ _ _)). unfold ret. norm_state. rewrite Hst1. finish_ret.
+  - finish_fail.
+Qed.
+
+(* the optional start / end arguments as they are passed *)
+Definition range_args (a b : option vcell) : list vcell :=
+  match a, b with
+  | Some x, Some y => [x; y]
+  | Some x, None => [x]
+  | None, _ => []
+  end.
+Definition range_end_arg (a b : option vcell) : option vcell :=
+  match a with Some _ => b | None => None end.
+(* decoded: None = some index argument is not an index *)
+Definition range_decode (a b : option vcell) : option (option N * option N) :=
+  match a, range_end_arg a b with
+  | None, _ => Some (None, None)
+  | Some x, None => match as_index x with Some i => Some (Some i, None) | None => None end
+  | Some x, Some y =>
+      match as_index x, as_index y with
+      | Some i, Some j => Some (Some i, Some j)
+      | _, _ => None
+      end
+  end.
+Definition opt_imm (a : option vcell) : Prop := match a with Some v => imm v | None => True end.
+
+Lemma range_decode_args_ok a b se : range_decode a b = Some se -> args_ok (fst se) (snd se).
+Proof.
+  unfold range_decode, range_end_arg, args_ok. destruct a as [x|].
+  - destruct b as [y|].
+    + destruct (as_index x), (as_index y); intros [= <-]; cbn; congruence.
+    + destruct (as_index x); intros [= <-]; cbn; congruence.
+  - intros [= <-]. reflexivity.
+Qed.
+
+Lemma opt_pop_index_true_top s v vs :
+  top_is s (v :: vs) -> imm v ->
+  opt_pop_index true s = opt_res (option_map Some (as_index v)) (pop1 s) /\ top_is (pop1 s) vs.
+Proof.
+  intros H Hi. destruct (pop_index_top _ _ _ H Hi) as [E T]. split; [|exact T].
+  cbn [opt_pop_index]. destruct (as_index v); cbn [opt_res option_map] in *.
+  - now rewrite (bindM_ok _ _ _ _ _ E).
+  - now rewrite (bindM_err _ _ _ _ _ _ E).
+Qed.
+Lemma opt_pop_index_false s : opt_pop_index false s = ROk None s.
+Proof. reflexivity. Qed.
+
+(* string-copy (one to three arguments) *)
+Theorem string_copy_refines s sid t a b :
+  stack_ok s -> tget (strs (st s)) sid = Some t -> opt_imm a -> opt_imm b ->
+  let r := run_builtin string_copy (VStr sid :: range_args a b) s in
+  match range_decode a b with
+  | Some (start, end_) =>
+      if range_ok t start end_
+      then returns r s (VStr (next_id (st s)))
+             (snd (new_str (st s) (spec_sub t (range_start start) (range_end t end_))))
+      else fails r s
+  | None => fails r s
+  end.
+Proof.
+  intros Hok Hs Ha Hb r. subst r.
+  destruct (range_decode a b) as [[start end_]|] eqn:Hd.
+  - pose proof (range_decode_args_ok _ _ _ Hd) as Hargs. cbn [fst snd] in Hargs.
+    pose proof (substring_core_spec t start end_ Hargs) as Hcore.
+    unfold range_decode, range_end_arg in Hd.
+    destruct a as [x|]; [destruct b as [y|]|]; cbn [range_args opt_imm] in *.
+    + destruct (as_index x) as [i|] eqn:Hx; [|discriminate].
+      destruct (as_index y) as [j|] eqn:Hy; [|discriminate]. injection Hd as <- <-.
+      enter Hok s1. unfold string_copy. pop_argc_ 1 (Some 3).
+      cbn [N.eqb Pos.eqb orb].
+      pop_with opt_pop_index_true_top E. rewrite Hy in E. cbn [opt_res option_map] in E. use_ok E.
+      pop_with opt_pop_index_true_top E. rewrite Hx in E. cbn [opt_res option_map] in E. use_ok E.
+      pop_with pop_string_top E. cbn [as_string opt_res] in E. use_ok E.
+      get_str sid t. rewrite Hcore.
+      destruct (range_ok t (Some i) (Some j)); cbn [lift bindM].
+      * rewrite str_new_run. norm_state. rewrite Hst1. finish_ret.
+      * finish_fail.
+    + destruct (as_index x) as [i|] eqn:Hx; [|discriminate]. injection Hd as <- <-.
+      enter Hok s1. unfold string_copy. pop_argc_ 1 (Some 3).
+      cbn [N.eqb Pos.eqb orb].
+      rewrite (bindM_ok _ _ _ _ _ (opt_pop_index_false _)).
+      pop_with opt_pop_index_true_top E. rewrite Hx in E. cbn [opt_res option_map] in E. use_ok E.
+      pop_with pop_string_top E. cbn [as_string opt_res] in E. use_ok E.
+      get_str sid t. rewrite Hcore.
+      destruct (range_ok t (Some i) None); cbn [lift bindM].
+      * rewrite str_new_run. norm_state. rewrite Hst1. finish_ret.
+      * finish_fail.
+    + injection Hd as <- <-.
+      enter Hok s1. unfold string_copy. pop_argc_ 1 (Some 3).
+      cbn [N.eqb Pos.eqb orb].
+      rewrite (bindM_ok _ _ _ _ _ (opt_pop_index_false _)).
+      rewrite (bindM_ok _ _ _ _ _ (opt_pop_index_false _)).
+      pop_with pop_string_top E. cbn [as_string opt_res] in E. use_ok E.
+      get_str sid t. rewrite Hcore.
+      destruct (range_ok t None None); cbn [lift bindM].
+      * rewrite str_new_run. norm_state. rewrite Hst1. finish_ret.
+      * finish_fail.
+  - unfold range_decode, range_end_arg in Hd.
+    destruct a as [x|]; [destruct b as [y|]|]; cbn [range_args opt_imm] in *; [| |discriminate].
+    + enter Hok s1. unfold string_copy. pop_argc_ 1 (Some 3).
+      cbn [N.eqb Pos.eqb orb].
+      pop_with opt_pop_index_true_top E.
+      destruct (as_index y) as [j|] eqn:Hy; cbn [opt_res option_map] in E.
+      2:{ use_err E. finish_fail. }
+      use_ok E.
+      pop_with opt_pop_index_true_top E.
+      destruct (as_index x) as [i|] eqn:Hx; [discriminate|]. cbn [opt_res option_map] in E.
+      use_err E. finish_fail.
+    + enter Hok s1. unfold string_copy. pop_argc_ 1 (Some 3).
+      cbn [N.eqb Pos.eqb orb].
+      rewrite (bindM_ok _ _ _ _ _ (opt_pop_index_false _)).
+      pop_with opt_pop_index_true_top E.
+      destruct (as_index x) as [i|] eqn:Hx; [discriminate|]. cbn [opt_res option_map] in E.
+      use_err E. finish_fail.
 Qed.
